@@ -7,6 +7,30 @@ NOTES = ("All checks: ./check <ID> [--tier quick|thorough]; seed from VERIF_SEED
 NOT_APPLICABLE = {}
 
 CHECKS = {
+ "C26": {
+  "level": "exploration",
+  "technique": "property-based testing: generated programs with a deterministic subquery/2,3 wrapper vs the reference conditional probability (and ProbLog's own top-level inference)",
+  "text": "A wrapper w(Args,P) :- subquery(Goal,P[,EvidenceList]) is added to generated programs; every answer must have probability 1 and bind P to the reference (conditional) probability of the goal instance; every instance with positive probability must be answered.",
+  "note": "Reference semantics for the expected value; program-level evidence statements are removed (the statement relates subquery/3 to its own evidence list).",
+ },
+ "C29": {
+  "level": "exploration",
+  "technique": "model-based property testing over histories of extend / add-clause / query on parent and child databases vs preparing the union from scratch",
+  "text": "Histories of extend(), += fact/probabilistic fact/rule/AD on extensions (new and parent-defined predicates) and interleaved queries on parents and children; every query must equal the same query on a from-scratch preparation of the base plus the clauses added along the chain.",
+  "note": "A database is treated as frozen once it has been extended; each query uses a fresh engine (an engine that raised keeps a dirty stack, which is outside this property).",
+ },
+ "C30": {
+  "level": "exploration",
+  "technique": "property-based testing: generated programs with probabilities inside/on/outside [0,1] (literals, arithmetic, flexible) and AD sums around 1; accept/reject classification oracle",
+  "text": "Programs whose relevant annotations are invalid must raise InvalidValue under the probability and log-probability semirings; programs with valid annotations only must not.",
+  "note": "Relevance is computed syntactically on a restricted program shape; over-full ADs that are only partially grounded are a listed finding (F-C30-1).",
+ },
+ "C32": {
+  "level": "exploration",
+  "technique": "property-based testing against the closed-form distribution (exact rationals) of select_weighted/4,5 and select_uniform/4, single and joint selections",
+  "text": "For random lists (with equal elements), weights and identifiers the reported distribution over (element, rest) must be w_i/sum(w) per position with the rest list in order; two selections with the same identifier must coincide, with different identifiers be independent.",
+  "note": "Closed form with exact rationals, tolerance 1e-9.",
+ },
  "C08": {
   "level": "exploration",
   "technique": "model-based property testing over call histories: shared target / shared prepared database vs fresh single-query grounding",
